@@ -44,7 +44,7 @@ OPEN_VARIANTS = ['valid', 'valid', 'valid', 'rid-low'] + sorted(sc.OPEN_FAULTS)
 def op(draw):
     kind = draw(
         st.sampled_from(
-            ['wait', 'wait', 'handshake', 'handshake', 'open', 'ka', 'ka', 'update', 'eor', 'refresh', 'notif', 'fault', 'fault', 'eof', 'rst', 'halfclose', 'in', 'in', 'policy', 'teardown', 'reload', 'select']
+            ['wait', 'wait', 'handshake', 'handshake', 'open', 'ka', 'ka', 'update', 'eor', 'refresh', 'notif', 'fault', 'fault', 'fault-close', 'fault-close', 'partial', 'eof', 'rst', 'halfclose', 'in', 'in', 'policy', 'teardown', 'reload', 'select']
         )
     )
     if kind == 'wait':
@@ -55,6 +55,10 @@ def op(draw):
         return ['notif', draw(st.sampled_from([1, 2, 3, 4, 5, 6])), draw(st.integers(0, 8))]
     if kind == 'fault':
         return ['fault', draw(st.sampled_from(FAULTS))]
+    if kind == 'fault-close':
+        return ['fault-close', draw(st.sampled_from(FAULTS + ['bad-open'])), draw(st.booleans())]
+    if kind == 'partial':
+        return ['partial', draw(st.sampled_from(['open', 'keepalive', 'update'])), draw(st.sampled_from([1, 10, 18, 19, 25, 40]))]
     if kind == 'policy':
         return ['policy', draw(st.booleans())]
     if kind == 'teardown':
@@ -166,6 +170,17 @@ def check(case: dict) -> dict:
                 raise Violation('close:remote-never-saw-eof', f'{frm}->{to} at {t:.2f}s')
             if r['local_closed_at'] is None and r['closed_at'] is not None and r['closed_at'] > t + 1.0:
                 raise Violation('close:eof-late', f'{r["closed_at"] - t:.2f}s after {frm}->{to}')
+    # (4b) once exabgp has decided to end a session (it wrote, or tried to write, a NOTIFICATION) the session is over:
+    #      the transport is closed and the FSM has left the connected state, whether or not the write succeeded
+    for w in out['wire']:
+        if w['data'][18] != 3 or w['t'] > out['end'] - 1.0:
+            continue
+        r = remotes.get(w['conn'])
+        if r is not None and not r['io_closed']:
+            raise Violation('close:transport-open-after-notification', f'NOTIFICATION attempted at {w["t"]:.2f}s in {w["fsm"]}, transport still open at {out["end"]:.2f}s')
+        left = [1 for t, key, frm, to, conn in fsm if t >= w['t'] - 1e-9 and conn == w['conn'] and frm in CONNECTED | {'CONNECT', 'ACTIVE'} and to == 'IDLE']
+        if not left and w['fsm'] in CONNECTED:
+            raise Violation('close:state-kept-after-notification', f'NOTIFICATION attempted at {w["t"]:.2f}s in {w["fsm"]}, no transition to IDLE follows')
     for state, has_proto in out['final']:
         if state in ('IDLE',) and has_proto and False:
             raise Violation('close:proto-kept-in-idle', '')
